@@ -1,6 +1,7 @@
 package main
 
 import (
+	"strings"
 	"time"
 
 	"github.com/virus-evolution/gofasta/pkg/alphabet"
@@ -54,9 +55,22 @@ func execC17(r *RNG, c *Case) {
 			return alphabet.Translate(seq, c.Get("strict") == "1")
 		case "comp":
 			a := alphabet.Complement(seq)
+			snap := strings.Clone(a)
 			b := fastaio.FastaRecord{Seq: seq}.Complement().Seq
 			if a != b {
 				return a + "|" + b, nil
+			}
+			// a result is a value: later calls on other sequences (of the same and of other lengths) must not change it
+			rev := []byte(seq)
+			for i, j := 0, len(rev)-1; i < j; i, j = i+1, j-1 {
+				rev[i], rev[j] = rev[j], rev[i]
+			}
+			later := []string{alphabet.Complement(string(rev)), alphabet.Complement(strings.Repeat("N", len(seq))), alphabet.Complement(seq + "ACGT"), alphabet.Complement("A")}
+			if a != snap {
+				return snap + "|changed-by-a-later-call|" + a, nil
+			}
+			if len(seq) > 0 && later[3] != "T" {
+				return snap + "|later-result|" + later[3], nil
 			}
 			return a, nil
 		case "revcomp":
